@@ -462,3 +462,35 @@ func vh_C07_TrimmedNodesComeBack() {
 	vfAssert("fifo", vfSliceEq(l.delivered, l.accepted))
 	vfReach("end")
 }
+
+// AT SCALE: one producer and one consumer on a queue whose burst size is taken from the code (vfProbe: just beyond every
+// integer constant that BufferedChannelQueue and the LinkedListQueue under it compare a count with), next to the small
+// size 6: two bursts of n items, each followed by a full drain (TakeWithTimeout or Poll); exactly-once, FIFO, Count;
+// base schedule only, sync.Pool as a LIFO cache. On a tree without such constants: one small run.
+func vh_C07_AtScale() {
+	vfSetMapOrder(2)
+	vfSetDelayBound(0)
+	vfSetPoolMode(1)
+	n := vfProbe("n", "BufferedChannelQueue|LinkedListQueue", 6, 6)
+	q := NewBufferedChannelQueue[c07Item](2, n, vfRange("node-hooks", 0, 1))
+	l := &c07Log{}
+	next := 0
+	how := vfChoose("drain-how", 2)
+	for round := 0; round < 2; round++ {
+		for i := 0; i < n; i++ {
+			err := q.Offer(l.item(next))
+			vfAssert("offer-accepts-while-room", err == nil) // 2 channel slots + n buffer places
+			l.accept(next, err)
+			next++
+		}
+		vfQuiesce()
+		vfAssert("count-at-quiescence", q.Count() == len(l.accepted)-len(l.delivered))
+		c07DrainHow(q, l, len(l.accepted), how)
+		vfAssert("nothing-lost-or-stranded", len(l.delivered) == len(l.accepted))
+		vfQuiesce()
+		vfAssert("count-after-drain", q.Count() == 0)
+	}
+	c07Check(l, true)
+	vfAssert("fifo", vfSliceEq(l.delivered, l.accepted))
+	vfReach("end")
+}
